@@ -1196,6 +1196,11 @@ impl Sim {
                     max_fails: job.job_desc.max_fails,
                     tasks,
                     completed: job.completion_date.is_some(),
+                    // (job_status asserts on inconsistent counters: that is B1's business, not a crash)
+                    status: std::panic::catch_unwind(std::panic::AssertUnwindSafe(|| format!("{:?}", hyperqueue::client::status::job_status(&job.make_job_info(false))))).unwrap_or_else(|_| {
+                        let _ = crate::panics::take();
+                        "panic".to_string()
+                    }),
                 }
             })
             .collect();
